@@ -148,16 +148,39 @@ def _returns(fn):
     return [n.value.value for n in ast.walk(fn) if isinstance(n, ast.Return) and isinstance(n.value, ast.Constant) and isinstance(n.value.value, str)]
 
 
-def _read_eq_const(fn):
-    """[(n, sig)] for every `fobj.read(n) == <bytes>` comparison of the function."""
+def _sorted_nodes(fn):
+    return sorted((n for n in ast.walk(fn) if hasattr(n, 'lineno')), key=lambda n: (n.lineno, n.col_offset))
+
+
+def _read_args(fn, env):
+    """Integer arguments of every `<file>.read(n)` call, in source order."""
     out = []
-    for n in ast.walk(fn):
-        if isinstance(n, ast.Compare) and len(n.ops) == 1 and isinstance(n.ops[0], ast.Eq):
-            l, r = n.left, n.comparators[0]
-            if (isinstance(l, ast.Call) and isinstance(l.func, ast.Attribute) and l.func.attr == 'read' and len(l.args) == 1
-                    and isinstance(l.args[0], ast.Constant) and isinstance(l.args[0].value, int) and _const_bytes(r) is not None):
-                out.append((l.args[0].value, _const_bytes(r)))
+    for n in _sorted_nodes(fn):
+        if isinstance(n, ast.Call) and isinstance(n.func, ast.Attribute) and n.func.attr == 'read' and len(n.args) == 1:
+            try:
+                out.append(_eval_int(n.args[0], env))
+            except ValueError:
+                out.append(None)
     return out
+
+
+def _eq_bytes(fn):
+    """Bytes constants that take part in an `==` comparison, in source order."""
+    out = []
+    for n in _sorted_nodes(fn):
+        if isinstance(n, ast.Compare) and len(n.ops) == 1 and isinstance(n.ops[0], ast.Eq):
+            for c in (n.left, n.comparators[0]):
+                if _const_bytes(c) is not None:
+                    out.append(_const_bytes(c))
+    return out
+
+
+def _read_eq_const(fn, env=None):
+    """[(n, sig)] when the function reads once with a constant length and compares with one bytes constant."""
+    reads, sigs = _read_args(fn, env or {}), _eq_bytes(fn)
+    if len(reads) == 1 and reads[0] is not None and len(sigs) == 1:
+        return [(reads[0], sigs[0])]
+    return []
 
 
 def _module_consts(tree):
@@ -212,7 +235,7 @@ def _kind_of(name, fn, fns, env):
     """Lean term of type TestKind for one function of FUNCTION_ID_MAP."""
     try:
         if name in ('_rcd', '_stk', '_cfbf', '_pds', '_xml', '_pdf', '_ps', '_zip', '_tiff', '_exe'):
-            cmp_ = _read_eq_const(fn)
+            cmp_ = _read_eq_const(fn, env)
             rets = [r for r in _returns(fn) if r]
             if len(cmp_) == 1 and len(rets) == 1:
                 return 'magic %d %s %s' % (cmp_[0][0], _lean_bytes(cmp_[0][1]), _lean_str(rets[0]))
@@ -230,10 +253,14 @@ def _kind_of(name, fn, fns, env):
                 if isinstance(n, ast.Call) and isinstance(n.func, ast.Name) and n.func.id == '_las' and len(n.args) == 2 and _const_bytes(n.args[1]) is not None:
                     return 'las %s' % _lean_bytes(_const_bytes(n.args[1]))
         elif name == '_bit':
-            ints = _int_consts(fn, env)
-            # read(12); len < 12; third word != 0x120; read(0x114); len != 0x114
-            if len(ints) == 5 and ints[0] == ints[1] and ints[3] == ints[4]:
-                return 'bit %d %d %d' % (ints[0], ints[2], ints[3])
+            reads = _read_args(fn, env)
+            third = []
+            for n in ast.walk(fn):
+                if (isinstance(n, ast.Compare) and len(n.ops) == 1 and isinstance(n.ops[0], ast.NotEq) and isinstance(n.left, ast.Call)
+                        and isinstance(n.left.func, ast.Name) and n.left.func.id == '_tif_third_word'):
+                    third.append(_eval_int(n.comparators[0], env))
+            if len(reads) == 2 and None not in reads and len(third) == 1:
+                return 'bit %d %d %d' % (reads[0], third[0], reads[1])
         elif name == '_lis_ver':
             for n in ast.walk(fn):
                 if isinstance(n, ast.For) and isinstance(n.iter, ast.Tuple) and all(_const_bytes(e) is not None for e in n.iter.elts):
@@ -244,10 +271,10 @@ def _kind_of(name, fn, fns, env):
                     if len(extra) == 1 and len(rets) == 1:
                         return 'lisVer [%s] %d %s' % (', '.join(_lean_bytes(s) for s in sigs), extra[0], _lean_str(rets[0]))
         elif name == '_ascii':
-            ints = _int_consts(fn, env)
+            reads = _read_args(fn, env)
             rets = [r for r in _returns(fn) if r]
-            if len(ints) == 1 and len(rets) == 1:
-                return 'ascii %d %s' % (ints[0], _lean_str(rets[0]))
+            if len(reads) == 1 and reads[0] is not None and len(rets) == 1:
+                return 'ascii %d %s' % (reads[0], _lean_str(rets[0]))
         elif name in ('_rp66v1', '_rp66v1_tif', '_rp66v1_tif_r', '_rp66v2', '_dat', '_segy', '_lis'):
             return {'_rp66v1': 'rp66v1', '_rp66v1_tif': 'rp66v1Tif', '_rp66v1_tif_r': 'rp66v1TifR', '_rp66v2': 'rp66v2',
                     '_dat': 'dat', '_segy': 'segy', '_lis': 'lis'}[name]
